@@ -23,8 +23,17 @@ func FuzzC05Handle(f *testing.F) {
 	ctx := context.Background()
 	ns := []int{3, 4, 6}
 	universe := map[int]map[string]bool{}
-	det := func(m proto.Message) string {
-		b, err := proto.MarshalOptions{Deterministic: true}.Marshal(m)
+	// A part is identified by its signed content (the known fields without the signature): a signature
+	// cannot be forged, so an accepted part's content must be one the harness signed under that member's
+	// key; the signature bytes themselves may differ (ECDSA signatures are malleable: (r, n-s) with the
+	// recovery bit flipped is an equally valid signature of the same member over the same content).
+	det := func(m *pbv1.QBFTMsg) string {
+		c := &pbv1.QBFTMsg{Type: m.GetType(), PeerIdx: m.GetPeerIdx(), Round: m.GetRound(), PreparedRound: m.GetPreparedRound(),
+			ValueHash: m.GetValueHash(), PreparedValueHash: m.GetPreparedValueHash()}
+		if m.GetDuty() != nil {
+			c.Duty = &pbv1.Duty{Slot: m.GetDuty().GetSlot(), Type: m.GetDuty().GetType()}
+		}
+		b, err := proto.MarshalOptions{Deterministic: true}.Marshal(c)
 		if err != nil {
 			return "ERR"
 		}
@@ -91,7 +100,7 @@ func FuzzC05Handle(f *testing.F) {
 				t.Fatalf("ACCEPTED a message with a nil part %d\ninput %q", i, raw)
 			}
 			if !universe[n][det(p)] {
-				t.Fatalf("ACCEPTED a signed part nobody signed (part %d: %v)\ninput %q", i, p, raw)
+				t.Fatalf("ACCEPTED a part whose content nobody signed (part %d: %v)\ninput %q", i, p, raw)
 			}
 			if !proto.Equal(p.GetDuty(), m.GetMsg().GetDuty()) {
 				t.Fatalf("ACCEPTED a justification for another duty (part %d: %v vs %v)\ninput %q", i, p.GetDuty(), m.GetMsg().GetDuty(), raw)
